@@ -2,6 +2,8 @@
 # usage: tools/soak.sh <tier> <seed>... ; runs every claimed check for each seed, prints non-zero exits
 tier=$1; shift
 cd "$(dirname "$0")/.."
+# in a `vp run --with-repo` snapshot: build against the snapshot of /repo so that the live /repo can be edited meanwhile
+if [ -n "${VP_RUN_REPO:-}" ] && [ "$(pwd)" != "/verif" ]; then ln -sfn "$VP_RUN_REPO" harness/raqote-src; echo "using repo snapshot $VP_RUN_REPO"; fi
 ./check --build >/dev/null || exit 2
 ids=$(python3 -c "import json; print(' '.join(c['property_id'] for c in json.load(open('MANIFEST.json'))['checks']))")
 for seed in "$@"; do
